@@ -73,3 +73,72 @@ _iov("C10", "Arena memory is reclaimed: no leak after drop, bounded footprint in
 _iov("C20", "A cloned or taken OwningIovec is an independent snapshot", [], [], ["C20"], ["A", "R"],
      "Kernel-checked frame theorems on the multi-object world model; correspondence over histories with clone/take and interleaved suffixes on both sides; "
      "per-object shadow oracle checked on every object after every operation.")
+SPECS["C12"] = dict(
+    title="MessageView is total on untrusted bytes and its accessors agree",
+    lean_modules=["Woodpile.Props.C12"],
+    theorems=[
+        "Woodpile.Props.C12.new_no_panic",
+        "Woodpile.Props.C12.new_accepts_iff",
+        "Woodpile.Props.C12.accessors_agree",
+        "Woodpile.Props.C12.no_panic",
+        "Woodpile.Props.C12.values_tile",
+        "Woodpile.Props.C12.oob_none",
+        "Woodpile.Props.C12.std_search_ok",
+        "Woodpile.Props.C12.find_sound",
+    ],
+    families=[dict(name="tlvview", quick=3000, thorough=1500000)],
+    technique="Lean 4 proof (all byte strings; checked slicing so that panic-freedom is a theorem) + model/implementation correspondence",
+    design_ref="DESIGN.md section 5, C12",
+    level_text=("Kernel-checked theorems about a Lean model of rough_tlv's MessageView (Woodpile.RoughTlv: View.new and every "
+                "accessor, with every slice expression checked so that a panic is an observable `none`) for every byte string. "
+                "The model is tied to /repo by running the real MessageView::new and all accessors "
+                "(len/is_empty/tags/tags_match_exactly/iter/get/get_value/find_tag/find on indices 0..N+1, 2^32, usize::MAX and on "
+                "present/absent tags) and the compiled model on the same inputs - every byte string of length <= 8 over "
+                "{00,01,02,FF}, every string of <= 5 words over {0,1,2,3,4,FFFFFFFF} with 0..3 trailing bytes, and structured random "
+                "headers (truncation at every length, N near the buffer size and near 2^32, equal/decreasing offsets and tags, "
+                "offsets beyond the payload, trailing bytes, duplicate tags) - and diffing all results; a direct oracle re-checks the "
+                "property on the real accessors against an acceptance predicate written from the property text."),
+    level_note=("Trusted: Lean kernel + 3 standard axioms; the correspondence harness and its generators; core::slice::binary_search "
+                "is modelled as Rust 1.95 implements it (last match among equal tags) and the theorems hold for any search that returns "
+                "a matching index. For N = 0 trailing bytes after the count word are accepted and belong to no value (the tiling "
+                "statement is about N >= 1)."),
+    trusted_base=["Rust std slice::binary_search / slice indexing semantics (modelled, not verified)"],
+    assumptions=["64-bit usize (8 * N cannot overflow for N < 2^32)"],
+)
+
+SPECS["C11"] = dict(
+    title="Rough TLV round trip and layout: encode then view yields the same pairs",
+    lean_modules=["Woodpile.Props.C11"],
+    theorems=[
+        "Woodpile.Props.C11.sort_is_stable",
+        "Woodpile.Props.C11.accepted_entries",
+        "Woodpile.Props.C11.encode_layout",
+        "Woodpile.Props.C11.len_eq",
+        "Woodpile.Props.C11.nested_lawful",
+        "Woodpile.Props.C11.view_accepts",
+        "Woodpile.Props.C11.view_roundtrip",
+        "Woodpile.Props.C11.view_find",
+        "Woodpile.Props.C11.reject_iff",
+        "Woodpile.Props.C11.sorted_reject_iff",
+    ],
+    families=[dict(name="tlv", quick=3000, thorough=300000)],
+    technique="Lean 4 proof (all pair lists, generic lawful value type, saturating usize/u32 arithmetic) + model/implementation correspondence",
+    design_ref="DESIGN.md section 5, C11",
+    level_text=("Kernel-checked theorems about a Lean model of rough_tlv's MessageWrapper (three constructors, compute_len with its "
+                "saturating usize arithmetic, encode with its saturating u32 accumulation and asserts) and MessageView, for every "
+                "list of pairs and every lawful value type (nested messages are an instance; accepted messages are proved lawful "
+                "values). The model is tied to /repo by running the real constructors (value types Cow<[u8]>, Cow<str>, &[u8] and a "
+                "harness enum with borrowed/owned bytes, nested messages up to depth 3 and values that only report a length, used "
+                "for the 2^31 decision logic), to_rough_tlv into an OwningIovec and into an hcobs::Encoder sink, and MessageView on "
+                "the result, against the compiled model on the same enumerated + random op sequences; a direct oracle compares the "
+                "emitted bytes with an independently written reference layout, the emitted length with rough_tlv_len(), the view's "
+                "iter/get/get_value/find/tags with the stably sorted pairs, the accept/reject decision with u128 arithmetic, and the "
+                "HCOBS-sink output (decoded by the real Decoder) with the same reference."),
+    level_note=("Trusted: Lean kernel + 3 standard axioms; the correspondence harness and its generators; std's sort_by_key is "
+                "modelled as 'the' stable sort (unique result). Sizes near 2^31 are proved and exercised only through values that "
+                "report a length (constructors only, never encoded); a pair count above i32::MAX is proved only (it would need a "
+                "2^31-element slice; the count limit is implied by the total-size limit anyway). The HCOBS sink is checked by the "
+                "harness oracle only (sink-agnosticism is a C02/C01 matter)."),
+    trusted_base=["Rust std sort_by_key (stable) and slice::binary_search (modelled, not verified)"],
+    assumptions=["64-bit usize"],
+)
